@@ -261,14 +261,34 @@ def run(chk):
     # the error dict stores them under the right names
     fit = method(chk, dm, "_fit")
     names = {}
-    unpack = [s for s in walk_no_nested(fit.node) if isinstance(s, ast.Assign) and isinstance(s.targets[0], ast.Tuple) and isinstance(s.value, ast.Call) and unparse(s.value.func) == "self._get_error_metrics"]
-    order = [x.id for x in unpack[0].targets[0].elts] if unpack else []
-    r1.require(order == ["wRMSE", "RMSE", "MAE", "CVRMSE", "PNRMSE"], f"{fit.key}|unpack-order", fit.where(), f"_fit must unpack the error metrics in the order they are returned; found {order}")
+    # self.error[<name>] must receive the value _get_error_metrics returns at <name>'s position (wRMSE, RMSE, MAE, CVRMSE, PNRMSE),
+    # whether the result is unpacked into names or indexed
+    ORDER = ["wRMSE", "RMSE", "MAE", "CVRMSE", "PNRMSE"]
+    rdf = ReachingDefs(fit.node)
+
+    def _position(e, at):
+        """index of the _get_error_metrics result that expression e denotes, or None"""
+        if isinstance(e, ast.Call) and unparse(e.func) in ("float", "np.float64") and len(e.args) == 1:
+            return _position(e.args[0], at)
+        if isinstance(e, ast.Subscript) and isinstance(e.slice, ast.Constant) and isinstance(e.slice.value, int) and isinstance(e.value, ast.Name):
+            vals = [rdf.value_of(d) for d in rdf.reaching(at, e.value.id)]
+            if vals and all(v is not None and isinstance(v, ast.Call) and unparse(v.func) == "self._get_error_metrics" for v in vals):
+                return e.slice.value
+        if isinstance(e, ast.Name):
+            for d in rdf.reaching(at, e.id):
+                us = rdf.unpack_source(d)
+                if us is not None and isinstance(us[0], ast.Call) and unparse(us[0].func) == "self._get_error_metrics":
+                    return us[1] if isinstance(us[1], int) else None
+        return None
+    got = {}
     for s in walk_no_nested(fit.node):
         if isinstance(s, ast.Assign) and isinstance(s.targets[0], ast.Subscript) and unparse(s.targets[0].value) == "self.error":
             k = const_str(s.targets[0].slice)
-            v = unparse(s.value)
-            r1.require(v in (f"float({k})", k), f"{fit.key}|error[{k}]", fit.where(s), f"self.error['{k}'] is assigned {v}")
+            pos = _position(s.value, s)
+            got[k] = pos
+            r1.require(k in ORDER and pos == ORDER.index(k), f"{fit.key}|error[{k}]", fit.where(s),
+                       f"self.error['{k}'] is assigned `{unparse(s.value)[:60]}` (position {pos} of the returned metrics; `{k}` is position {ORDER.index(k) if k in ORDER else '?'})")
+    r1.require(sorted(k for k in got if k) == sorted(ORDER), f"{fit.key}|unpack-order", fit.where(), f"_fit must store all five error metrics by name; found {sorted(map(str, got))}")
 
     # ------------------------------------------------------------------ R16.2
     sd = chk.repo.try_func(MET, "_safe_divide")
@@ -317,8 +337,20 @@ def run(chk):
         sl = backward_slice_exprs(rd, st, dfarg, 4)
         txt = " | ".join(unparse(x) for x in sl)
         from_predict = any(isinstance(x, ast.Call) and unparse(x.func) == "self._predict" and x.args and unparse(x.args[0]) == f.params[1] for e in sl for x in ast.walk(e))
-        mask_ok = isinstance(dfarg, ast.Subscript) and isinstance(dfarg.slice, ast.UnaryOp) and isinstance(dfarg.slice.op, ast.Invert)
-        interp = ".any(axis=1)" in txt and "startswith('interpolated_')" in txt
+        from engine.pattern import Expander, match as pmatch
+        dfx = Expander(f.node).expand(dfarg, st)
+        pats = ["_F_.loc[~_F_[[_C_ for _C_ in _F_.columns if _C_.startswith('interpolated_')]].any(axis=1)]",
+                "_F_[~_F_[[_C_ for _C_ in _F_.columns if _C_.startswith('interpolated_')]].any(axis=1)]",
+                "_F_.loc[~_F_.filter(like='interpolated_').any(axis=1)]",
+                "_F_.loc[~_F_.loc[:, [_C_ for _C_ in _F_.columns if _C_.startswith('interpolated_')]].any(axis=1)]"]
+        def _from_predict(txt_):
+            if txt_.startswith("self._predict("):
+                return True
+            if txt_.isidentifier():
+                vals_ = [rd.value_of(d) for d in rd.reaching(st, txt_)]
+                return bool(vals_) and all(v_ is not None and unparse(v_).startswith("self._predict(") for v_ in vals_)
+            return False
+        mask_ok = interp = any((b_ := pmatch(p_, dfx)) is not None and _from_predict(b_.get("_F_", "")) for p_ in pats)
         r4.require(from_predict, f"{f.key}|metrics-from-predict(baseline)", f.where(st), f"{nm}: baseline metrics must be computed on self._predict({f.params[1]}, ...)")
         r4.require(mask_ok and interp, f"{f.key}|non-interpolated-rows", f.where(st), f"{nm}: baseline metrics must be restricted to rows where no interpolated_* flag is set (df.loc[~interpolated])")
         npsl = " | ".join(unparse(x) for x in backward_slice_exprs(rd, st, nparg, 3)) if nparg is not None else ""
